@@ -23,8 +23,10 @@ tie: coq
 	mkdir -p coq/generated
 	python3 translate/py2v.py $(REPO) lookup_enc > coq/generated/LookupEncGen.v
 	python3 translate/py2v.py $(REPO) lookup_dec > coq/generated/LookupDecGen.v
-	cd coq && for u in Enc Dec; do coqc -Q tie PJ.Tie -Q generated PJ.Gen generated/Lookup$${u}Gen.v && \
-	  coqc -Q model PJ.Model -Q tie PJ.Tie -Q generated PJ.Gen tie/Lookup$${u}Tie.v || exit 1; done
+	python3 translate/py2v.py $(REPO) hint > coq/generated/HintGen.v
+	python3 translate/py2v.py $(REPO) options > coq/generated/OptionsGen.v
+	cd coq && for u in LookupEnc LookupDec Hint Options; do coqc -Q tie PJ.Tie -Q generated PJ.Gen generated/$${u}Gen.v && \
+	  coqc -Q model PJ.Model -Q tie PJ.Tie -Q generated PJ.Gen tie/$${u}Tie.v || exit 1; done
 
 clean:
 	-cd coq && [ -f Makefile ] && $(MAKE) clean --no-print-directory
